@@ -395,7 +395,10 @@ pub fn size_sweep<S: Sch>(rec: &mut Rec) {
                     cfgs.push(KeyCfg::ml(nv));
                 }
             } else {
-                return;
+                // linear codes: keys for 10 and 11 variables (Brakedown: sparse encoding matrices with more than 256 rows)
+                for nv in [10usize, 11] {
+                    cfgs.push(KeyCfg::ml(nv));
+                }
             }
         }
         Fam::Mv => {
@@ -416,9 +419,40 @@ pub fn size_sweep<S: Sch>(rec: &mut Rec) {
         };
         SKIP_PREFIXES.store(true, std::sync::atomic::Ordering::Relaxed);
         let pps = roundtrip(rec, S::NAME, "params", &id, &keys.pp, false);
-        let _ = roundtrip(rec, S::NAME, "committer-key", &id, &keys.ck, false);
-        let _ = roundtrip(rec, S::NAME, "verifier-key", &id, &keys.vk, false);
+        let cks = roundtrip(rec, S::NAME, "committer-key", &id, &keys.ck, false);
+        let vks = roundtrip(rec, S::NAME, "verifier-key", &id, &keys.vk, false);
         SKIP_PREFIXES.store(false, std::sync::atomic::Ordering::Relaxed);
+        // the deserialized keys decide like the originals (honest and one false claim) and commit to the same value
+        if !S::HIDING && S::NAME != "HYR" {
+            let shapes = crate::source::shapes_short::<S>(&cfg, rec.seed);
+            let p = shapes[shapes.len() - 1].1.clone();
+            let z = S::points(&cfg, rec.seed)[0].1.clone();
+            if let Ok(c) = commit_set::<S>(&keys, vec![lp::<S>("p", p.clone(), None, None)], rec.seed, 0) {
+                if let Ok(s1) = open_single::<S>(&keys, &c, &[0], &z, 0, rec.seed, 0) {
+                    let cr: Vec<&LCm<S>> = c.comms.iter().collect();
+                    let mut bad = s1.values.clone();
+                    bad[0] += S::F::one();
+                    for (m, (ck2, vk2)) in cks.iter().zip(vks.iter()).enumerate() {
+                        if let (Some(ck2), Some(vk2)) = (ck2, vk2) {
+                            let keys2 = Keys::<S> { cfg: keys.cfg.clone(), pp: keys.pp.clone(), ck: ck2.clone(), vk: vk2.clone() };
+                            rec.count_points(1);
+                            rec.op(3);
+                            let d1 = check_single::<S>(&keys2, &cr, &z, &s1.values, &s1.proof, 0, rec.seed, 0);
+                            let d2 = check_single::<S>(&keys2, &cr, &z, &bad, &s1.proof, 0, rec.seed, 0);
+                            let same_comm = match commit_set::<S>(&keys2, vec![lp::<S>("p", p.clone(), None, None)], rec.seed, 0) {
+                                Ok(c2) => ser(c2.comms[0].commitment()) == ser(c.comms[0].commitment()),
+                                Err(_) => false,
+                            };
+                            let same = d1.accepted() && !d2.accepted() && same_comm;
+                            rec.class(if same { "decisions-equal" } else { "decisions-differ" });
+                            if !same {
+                                viol(rec, S::NAME, "verifier-key", "decision-changes", &id, format!("{}: with the deserialized keys the honest claim gives {}, the false claim {}, commitment equal: {}", MODES[m].2, d1.short(), d2.short(), same_comm));
+                            }
+                        }
+                    }
+                }
+            }
+        }
         // keys trimmed from the deserialized parameters are the keys trimmed from the originals
         for (m, pp2) in pps.iter().enumerate() {
             if let Some(pp2) = pp2 {
